@@ -303,3 +303,63 @@ func c04Globals(res *fw.Result, c fw.Case) {
 	res.Put("process_globals", applied)
 	res.Sample = map[string]any{"process_global": applied, "values": c.Int("values")}
 }
+
+// xmlCollisionObjects plants a pair of distinct equal-length strings with the same 32-bit
+// fingerprint where a reader is most likely to de-duplicate strings: as neighbouring tag
+// values of one element, as tag values of neighbouring elements, as tag keys, as member
+// roles, as user names, and in changeset tags — first A then B, and once more B then A.
+func xmlCollisionObjects(c xmlw.Collision) []osm.Object {
+	a, b := c.A, c.B
+	return []osm.Object{
+		&osm.Node{ID: 1, Visible: true, Version: 1, Tags: osm.Tags{{Key: "wikidata", Value: a}, {Key: "brand:wikidata", Value: b}}},
+		&osm.Node{ID: 2, Visible: true, Version: 1, Tags: osm.Tags{{Key: "wikidata", Value: b}}},
+		&osm.Node{ID: 3, Visible: true, Version: 1, Tags: osm.Tags{{Key: "wikidata", Value: a}}},
+		&osm.Way{ID: 4, Visible: true, Version: 1, User: a, UserID: 7, Nodes: osm.WayNodes{{ID: 1}, {ID: 2}}, Tags: osm.Tags{{Key: a, Value: "1"}, {Key: b, Value: "2"}}},
+		&osm.Way{ID: 5, Visible: true, Version: 1, User: b, UserID: 8, Tags: osm.Tags{{Key: b, Value: a}, {Key: a, Value: b}}},
+		&osm.Relation{ID: 6, Visible: true, Version: 1, Members: osm.Members{{Type: osm.TypeNode, Ref: 1, Role: a}, {Type: osm.TypeNode, Ref: 2, Role: b},
+			{Type: osm.TypeWay, Ref: 4, Role: b}, {Type: osm.TypeWay, Ref: 5, Role: a}}, Tags: osm.Tags{{Key: "ref", Value: b}, {Key: "old_ref", Value: a}}},
+		&osm.Changeset{ID: 9, User: b, UserID: 9, Tags: osm.Tags{{Key: "comment", Value: b}, {Key: "source", Value: a}}},
+	}
+}
+
+// c03Collisions: one document per fingerprint function, all of them in one case (the pairs
+// are searched once per process).
+func c03Collisions(res *fw.Result, c fw.Case) {
+	for _, col := range xmlw.Collisions() {
+		objs := xmlCollisionObjects(col)
+		d := &xmlw.Doc{Kind: c.Str("root")}
+		switch d.Kind {
+		case "osm":
+			d.Objects = objs
+		case "osmChange":
+			d.Blocks = []xmlw.Block{{Action: "create", Objects: objs[:3]}, {Action: "modify", Objects: objs[3:5]}, {Action: "create", Objects: objs[5:]}}
+		}
+		text, _, _, _ := d.Render(gen.New(c.Seed, "c03render"), xmlw.Noise{})
+		c03Check(res, d, text, 0, map[string]any{"fingerprint": col.Hash, "pair": col.A + " / " + col.B})
+		res.Eval("collisions|" + col.Hash + "|" + d.Kind)
+		res.Put("fingerprint_functions", col.Hash)
+		res.Add("documents", 1)
+		res.Add("objects_compared", int64(len(objs)))
+		res.Sample = map[string]any{"fingerprint": col.Hash, "pair": []string{col.A, col.B}, "root": d.Kind}
+	}
+}
+
+// c04Collisions: the same strings inside an OSM or a Change value, through the full oracle.
+func c04Collisions(res *fw.Result, c fw.Case) {
+	for _, col := range xmlw.Collisions() {
+		o := &osm.OSM{Version: "0.6"}
+		for _, obj := range xmlCollisionObjects(col) {
+			xmlw.AddTo(o, obj)
+		}
+		var v any = o
+		kind := "osm"
+		if c.Str("root") == "osmChange" {
+			kind, v = "change", &osm.Change{Create: &osm.OSM{Nodes: o.Nodes}, Modify: &osm.OSM{Ways: o.Ways, Relations: o.Relations, Changesets: o.Changesets}}
+		}
+		c04Run(res, kind, v, false, false, map[string]any{"fingerprint": col.Hash, "pair": col.A + " / " + col.B})
+		res.Eval("collisions|" + col.Hash + "|" + kind)
+		res.Put("fingerprint_functions", col.Hash)
+		res.Add("values", 1)
+		res.Sample = map[string]any{"fingerprint": col.Hash, "pair": []string{col.A, col.B}, "kind": kind}
+	}
+}
